@@ -335,7 +335,8 @@ def check_flow_conservation(G: nx.DiGraph, flow_attr) -> bool:
                 return False
             in_flow += data[flow_attr]
 
-        if out_flow != in_flow:
+        # Float values that conserve flow as decimal numbers (0.3 = 0.1 + 0.2) differ in the last binary digits
+        if not math.isclose(out_flow, in_flow, rel_tol=1e-9, abs_tol=1e-9):
             return False
 
     return True
